@@ -790,4 +790,184 @@ theorem terminal_state {f8 : Bool} {s : St μ π} (h : Inv f8 s) (hno : ∀ a : 
   | waiting => have := hno .tFire; simp [step, hr, ht] at this
   | fired => have := hno .tExit; simp [step, hr, ht] at this
   | done => rfl
+/-! ## the last `BestMove` event -/
+
+theorem lastBestEvent_some {evs : List (Ev μ π)} {line : List μ} (h : lastBestEvent evs = some line) :
+    ∃ p, Ev.best line p ∈ evs := by
+  induction evs with
+  | nil => cases h
+  | cons e r ih =>
+    cases e with
+    | best l p =>
+      simp only [lastBestEvent] at h
+      cases hr : lastBestEvent r with
+      | none =>
+        rw [hr] at h
+        simp only [Option.or_some, Option.getD_none, Option.some.injEq] at h
+        subst h
+        exact ⟨p, List.mem_cons_self⟩
+      | some l' =>
+        rw [hr] at h
+        simp only [Option.or_some, Option.getD_some, Option.some.injEq] at h
+        subst h
+        obtain ⟨p', hp'⟩ := ih hr
+        exact ⟨p', List.mem_cons_of_mem _ hp'⟩
+    | other p =>
+      simp only [lastBestEvent] at h
+      obtain ⟨p', hp'⟩ := ih h
+      exact ⟨p', List.mem_cons_of_mem _ hp'⟩
+
+theorem lastBestEvent_none {evs : List (Ev μ π)} :
+    lastBestEvent evs = none ↔ ∀ line p, Ev.best line p ∉ evs := by
+  induction evs with
+  | nil => simp [lastBestEvent]
+  | cons e r ih =>
+    cases e with
+    | best l p =>
+      simp only [lastBestEvent]
+      constructor
+      · intro h
+        cases hr : lastBestEvent r <;> rw [hr] at h <;> simp at h
+      · intro h
+        exact absurd List.mem_cons_self (h l p)
+    | other p =>
+      simp only [lastBestEvent, ih]
+      constructor
+      · intro h line p' hm
+        rcases List.mem_cons.1 hm with e | hm
+        · cases e
+        · exact h line p' hm
+      · intro h line p' hm
+        exact h line p' (List.mem_cons_of_mem _ hm)
+/-! ## liveness without M: a search whose stop condition has occurred ends and its output is printed -/
+
+/-- the stop condition of the search has occurred: S has left `analyze_iterative`, or the flag is set, or C is about to
+set it, or a `Stop` (from M, T or S) is waiting for C -/
+def Triggered (s : St μ π) : Prop :=
+  s.s ≠ .run ∨ s.flag = true ∨ s.c = .cancel ∨ (s.c = .recv ∧ 0 < s.q2)
+
+/-- the search thread is joinable and the writer (if any) has printed everything and ended — or the process is gone
+(possible only before the repair of F8) -/
+def Answered (s : St μ π) : Prop :=
+  (s.s = .done ∧ (s.w = .done ∨ s.w = .absent)) ∨ s.m = .aborted
+
+/-- the helpful action for `Triggered ↝ Answered`: it does not involve M -/
+def helpful2 (s : St μ π) : Act μ π :=
+  match s.s with
+  | .run => if s.flag = true then .sNotice else if s.c = .cancel then .cCancel else .cRecv
+  | .sendStop => .sSendStop
+  | .unwind => if s.sink = true then .sDropSink else if s.tx3 = true then .sDropTx3 else .sFinish
+  | .done =>
+    match s.w with
+    | .loop => if s.q1 = [] then .wClosed else .wRecv
+    | _ => .wTail
+
+theorem enabled_helpful2 {f8 : Bool} {s : St μ π} (h : Inv f8 s) (ht : Triggered s) (hq : ¬ Answered s) :
+    (step f8 s (helpful2 s)).isSome = true ∧ (helpful2 s).fair = true := by
+  obtain ⟨h1, h2, h3, h4, h5, h6, h7, h8, h9, h10, h11, h12, h13, h14, h15, h16, h17, h18, h19, h20, h21, h22, h23⟩ := h
+  obtain ⟨m, c, ss, w, t, sOk, cOk, art, q1, sink, rx1, q2, tx2, tx3, tt, rx2, flag, best, em, co, pr, sf, inj, re⟩ := s
+  simp only at h1 h2 h3 h4 h5 h6 h7 h8 h9 h10 h11 h12 h13 h14 h15 h16 h17 h18 h19 h20 h21 h22 h23
+  simp only [Triggered] at ht
+  simp only [Answered, not_or] at hq
+  cases ss with
+  | run => cases c <;> cases flag <;> simp_all [helpful2, step, Act.fair]
+  | sendStop => simp_all [helpful2, step, Act.fair] <;> (repeat' split) <;> rfl
+  | unwind => cases sink <;> cases tx3 <;> simp_all [helpful2, step, Act.fair]
+  | done => cases w <;> cases q1 <;> simp_all [helpful2, step, Act.fair]
+
+/-- the conclusion of the ranking rule for one step (same rank as for `wait_cancel`) -/
+def Progress2 (a : Act μ π) (s s' : St μ π) : Prop :=
+  Answered s' ∨ (Triggered s' ∧ (lexLt (rank1 s', rank2 s') (rank1 s, rank2 s) ∨
+    (a ≠ helpful2 s ∧ (rank1 s', rank2 s') = (rank1 s, rank2 s) ∧ helpful2 s' = helpful2 s)))
+
+local macro "live2_tac" h:ident hs:ident s:ident : tactic => `(tactic| (
+  obtain ⟨h1, h2, h3, h4, h5, h6, h7, h8, h9, h10, h11, h12, h13, h14, h15, h16, h17, h18, h19, h20, h21, h22, h23⟩ := $h
+  obtain ⟨m, c, ss, w, t, sOk, cOk, art, q1, sink, rx1, q2, tx2, tx3, tt, rx2, flag, best, em, co, pr, sf, inj, re⟩ := $s
+  simp only at h1 h2 h3 h4 h5 h6 h7 h8 h9 h10 h11 h12 h13 h14 h15 h16 h17 h18 h19 h20 h21 h22 h23
+  unfold step at $hs:ident
+  simp only at $hs:ident
+  (repeat' split at $hs:ident) <;> (try cases $hs:ident) <;>
+    simp_all [Progress2, Triggered, Answered, lexLt, rank1, rank2, sW, cW, mW, wW, helpful2] <;> (first | omega | grind)))
+
+section perActionLive2
+variable {f8 : Bool} {s s' : St μ π}
+theorem live2_mCall (h : Inv f8 s) (ht : Triggered s) (hq : ¬ Answered s) (hs : step f8 s .mCall = some s') :
+    Progress2 .mCall s s' := by live2_tac h hs s
+theorem live2_mJoinC (h : Inv f8 s) (ht : Triggered s) (hq : ¬ Answered s) (hs : step f8 s .mJoinC = some s') :
+    Progress2 .mJoinC s s' := by live2_tac h hs s
+theorem live2_mJoinW (h : Inv f8 s) (ht : Triggered s) (hq : ¬ Answered s) (hs : step f8 s .mJoinW = some s') :
+    Progress2 .mJoinW s s' := by live2_tac h hs s
+theorem live2_callerDrop (h : Inv f8 s) (ht : Triggered s) (hq : ¬ Answered s) (hs : step f8 s .callerDrop = some s') :
+    Progress2 .callerDrop s s' := by live2_tac h hs s
+theorem live2_callerRecv (h : Inv f8 s) (ht : Triggered s) (hq : ¬ Answered s) (hs : step f8 s .callerRecv = some s') :
+    Progress2 .callerRecv s s' := by live2_tac h hs s
+theorem live2_cRecv (h : Inv f8 s) (ht : Triggered s) (hq : ¬ Answered s) (hs : step f8 s .cRecv = some s') :
+    Progress2 .cRecv s s' := by live2_tac h hs s
+theorem live2_cCancel (h : Inv f8 s) (ht : Triggered s) (hq : ¬ Answered s) (hs : step f8 s .cCancel = some s') :
+    Progress2 .cCancel s s' := by live2_tac h hs s
+theorem live2_cJoin (h : Inv f8 s) (ht : Triggered s) (hq : ¬ Answered s) (hs : step f8 s .cJoin = some s') :
+    Progress2 .cJoin s s' := by live2_tac h hs s
+theorem live2_sEndSelf (h : Inv f8 s) (ht : Triggered s) (hq : ¬ Answered s) (hs : step f8 s .sEndSelf = some s') :
+    Progress2 .sEndSelf s s' := by live2_tac h hs s
+theorem live2_sNotice (h : Inv f8 s) (ht : Triggered s) (hq : ¬ Answered s) (hs : step f8 s .sNotice = some s') :
+    Progress2 .sNotice s s' := by live2_tac h hs s
+theorem live2_sPanic (h : Inv f8 s) (ht : Triggered s) (hq : ¬ Answered s) (hs : step f8 s .sPanic = some s') :
+    Progress2 .sPanic s s' := by live2_tac h hs s
+theorem live2_sSendStop (h : Inv f8 s) (ht : Triggered s) (hq : ¬ Answered s) (hs : step f8 s .sSendStop = some s') :
+    Progress2 .sSendStop s s' := by live2_tac h hs s
+theorem live2_sDropSink (h : Inv f8 s) (ht : Triggered s) (hq : ¬ Answered s) (hs : step f8 s .sDropSink = some s') :
+    Progress2 .sDropSink s s' := by live2_tac h hs s
+theorem live2_sDropTx3 (h : Inv f8 s) (ht : Triggered s) (hq : ¬ Answered s) (hs : step f8 s .sDropTx3 = some s') :
+    Progress2 .sDropTx3 s s' := by live2_tac h hs s
+theorem live2_sFinish (h : Inv f8 s) (ht : Triggered s) (hq : ¬ Answered s) (hs : step f8 s .sFinish = some s') :
+    Progress2 .sFinish s s' := by live2_tac h hs s
+theorem live2_wRecv (h : Inv f8 s) (ht : Triggered s) (hq : ¬ Answered s) (hs : step f8 s .wRecv = some s') :
+    Progress2 .wRecv s s' := by live2_tac h hs s
+theorem live2_wClosed (h : Inv f8 s) (ht : Triggered s) (hq : ¬ Answered s) (hs : step f8 s .wClosed = some s') :
+    Progress2 .wClosed s s' := by live2_tac h hs s
+theorem live2_wTail (h : Inv f8 s) (ht : Triggered s) (hq : ¬ Answered s) (hs : step f8 s .wTail = some s') :
+    Progress2 .wTail s s' := by live2_tac h hs s
+theorem live2_tFire (h : Inv f8 s) (ht : Triggered s) (hq : ¬ Answered s) (hs : step f8 s .tFire = some s') :
+    Progress2 .tFire s s' := by live2_tac h hs s
+theorem live2_tExit (h : Inv f8 s) (ht : Triggered s) (hq : ¬ Answered s) (hs : step f8 s .tExit = some s') :
+    Progress2 .tExit s s' := by live2_tac h hs s
+theorem live2_sEmit (e : Ev μ π) (h : Inv f8 s) (ht : Triggered s) (hq : ¬ Answered s)
+    (hs : step f8 s (.sEmit e) = some s') : Progress2 (.sEmit e) s s' := by live2_tac h hs s
+end perActionLive2
+
+theorem live2_step {f8 : Bool} {s s' : St μ π} {a : Act μ π} (h : Inv f8 s) (ht : Triggered s) (hq : ¬ Answered s)
+    (hs : step f8 s a = some s') : Progress2 a s s' := by
+  cases a with
+  | mCall => exact live2_mCall h ht hq hs
+  | mJoinC => exact live2_mJoinC h ht hq hs
+  | mJoinW => exact live2_mJoinW h ht hq hs
+  | callerDrop => exact live2_callerDrop h ht hq hs
+  | callerRecv => exact live2_callerRecv h ht hq hs
+  | cRecv => exact live2_cRecv h ht hq hs
+  | cCancel => exact live2_cCancel h ht hq hs
+  | cJoin => exact live2_cJoin h ht hq hs
+  | sEndSelf => exact live2_sEndSelf h ht hq hs
+  | sNotice => exact live2_sNotice h ht hq hs
+  | sPanic => exact live2_sPanic h ht hq hs
+  | sSendStop => exact live2_sSendStop h ht hq hs
+  | sDropSink => exact live2_sDropSink h ht hq hs
+  | sDropTx3 => exact live2_sDropTx3 h ht hq hs
+  | sFinish => exact live2_sFinish h ht hq hs
+  | wRecv => exact live2_wRecv h ht hq hs
+  | wClosed => exact live2_wClosed h ht hq hs
+  | wTail => exact live2_wTail h ht hq hs
+  | tFire => exact live2_tFire h ht hq hs
+  | tExit => exact live2_tExit h ht hq hs
+  | sEmit e => exact live2_sEmit e h ht hq hs
+
+/-- **a triggered search is answered** on every weakly fair execution -/
+theorem triggered_leadsTo_answered {f8 : Bool} (e : Wee.Fair.Exec (step f8 (μ := μ) (π := π)))
+    (h0 : Inv f8 (e.st 0)) (hfair : ∀ a : Act μ π, a.fair = true → Wee.Fair.WeakFair e a) :
+    ∀ i, Triggered (e.st i) → ∃ j, i ≤ j ∧ Answered (e.st j) := by
+  have hI : ∀ i, Inv f8 (e.st i) := e.invariant (Inv f8) h0 (fun s a s' hi hs => inv_step hi hs)
+  refine Wee.Fair.leadsTo_of_rank lexLt lexLt_wf (Inv f8) Triggered Answered (fun s => (rank1 s, rank2 s)) helpful2
+    (fun a => a.fair = true) ?_ ?_ ?_ e hI hfair
+  · intro s hi ht hq; exact (enabled_helpful2 hi ht hq).2
+  · intro s hi ht hq; exact (enabled_helpful2 hi ht hq).1
+  · intro s a s' hi ht hq hs; exact live2_step hi ht hq hs
 end Wee.Threads
